@@ -92,6 +92,12 @@ func (c *Chunk) Data(compressingType byte) ([]byte, error) {
 		w = &buff
 	}
 	err := nbt.NewEncoder(w).Encode(c, "")
+	if closer, ok := w.(io.Closer); ok {
+		// the compressors hold back their last block and the trailer until Close
+		if cerr := closer.Close(); err == nil {
+			err = cerr
+		}
+	}
 	return buff.Bytes(), err
 }
 
